@@ -281,6 +281,11 @@ func ruleI4(c *Ctx) {
 			}
 			for _, fb := range failBlocks {
 				if ok, why := failsWithError(fb, fn, 0, map[*ssa.BasicBlock]bool{}); !ok {
+					// a fallback that recomputes with the un-narrowed value (fast path / exact path) is not a silent answer
+					if usesWide(fb, call.Call.Args[0], map[*ssa.BasicBlock]bool{}, 0) {
+						c.ok(key, pos, "on failure the computation falls back to the un-narrowed value (fast path / exact path)")
+						return
+					}
 					if r, isEx := i4Exceptions[key]; isEx && r != "" {
 						c.except(key, pos, r)
 					} else {
@@ -540,4 +545,40 @@ func allCallersAllowed(p *Prog, fn *ssa.Function, depth int) string {
 		l = append(l, s)
 	}
 	return strings.Join(l, ", ")
+}
+
+// usesWide: on the paths starting at block b, is the original (un-narrowed)
+// operand passed to some call (method receiver or argument)?
+func usesWide(b *ssa.BasicBlock, wide ssa.Value, seen map[*ssa.BasicBlock]bool, depth int) bool {
+	if seen[b] || depth > 10 {
+		return false
+	}
+	seen[b] = true
+	wb := traceValue(wide).bases
+	same := func(v ssa.Value) bool {
+		if v == wide {
+			return true
+		}
+		vb := traceValue(v).bases
+		return len(wb) == 1 && len(vb) == 1 && wb[0].v == vb[0].v
+	}
+	for _, in := range b.Instrs {
+		if ci, ok := in.(ssa.CallInstruction); ok {
+			cc := ci.Common()
+			if cc.IsInvoke() && same(cc.Value) {
+				return true
+			}
+			for _, a := range cc.Args {
+				if same(a) {
+					return true
+				}
+			}
+		}
+	}
+	for _, s := range b.Succs {
+		if usesWide(s, wide, seen, depth+1) {
+			return true
+		}
+	}
+	return false
 }
